@@ -347,6 +347,8 @@ def compare(c, io, mo):
         if m.get('ok'): return f"implementation raised {io['exc']} ({io.get('msg')}), model answered"
         return None if m.get('err') == io['exc'] else f"implementation raised {io['exc']}, model {m.get('err')}"
     if not m.get('ok'): return f"model refused ({m.get('err')}), implementation answered"
+    if k == 'rebin' and len(c['shape']) == 3 and c.get('dtype') in ('int8', 'uint8', 'int16', 'uint16', 'int32', 'uint32'):
+        return None      # KF-C20-rebin-int-cube-wraps: judged by the oracle (the model sums in Int and cannot wrap)
     if k in ('pad2', 'pad3', 'subarray', 'rebin'):
         if io['shape'] != m['shape']: return f"shape: impl {io['shape']} model {m['shape']}"
         if io['data'] != m['data']: return f"{k}: values differ"
